@@ -640,6 +640,22 @@ impl Pgcat {
         std::fs::rename(&tmp, &self.cfg_path).ok();
     }
 
+    /// CPU time (user + system) the pooler process has used so far, in ms.
+    pub fn cpu_ms(&self) -> u64 {
+        if let Ok(s) = std::fs::read_to_string(format!("/proc/{}/stat", self.child.id())) {
+            // fields after the ")" that closes the command name: state is field 3, utime 14, stime 15
+            if let Some(rest) = s.rsplit(')').next() {
+                let f: Vec<&str> = rest.split_whitespace().collect();
+                if f.len() > 13 {
+                    let ticks: u64 = f[11].parse().unwrap_or(0) + f[12].parse::<u64>().unwrap_or(0);
+                    let hz = unsafe { libc::sysconf(libc::_SC_CLK_TCK) }.max(1) as u64;
+                    return ticks * 1000 / hz;
+                }
+            }
+        }
+        0
+    }
+
     pub fn rss_kb(&self) -> u64 {
         if let Ok(s) = std::fs::read_to_string(format!("/proc/{}/status", self.child.id())) {
             for l in s.lines() {
